@@ -73,12 +73,16 @@ type job struct {
 	data                  [][2]string // stack, count: read inside Upload
 	late                  [][2]string // the same trie read again at the end of the session (as a slow uploader would)
 	trie                  *transporttrie.Trie
-	shared                bool // the very same *Trie was handed over with an earlier job
+	ptr                   *upstream.UploadJob // the uploader's view later on: what a queued job says when it is finally sent
+	lateStart, lateEnd    time.Time
+	lateName              string
+	shared                bool // the very same *Trie or *UploadJob was handed over with an earlier job
 	byStop                bool
 }
 
 type runState struct {
 	buf       [64]byte
+	bareSep   bool
 	mu        sync.Mutex
 	log       []entry
 	jobs      []job
@@ -167,6 +171,23 @@ func (s *fakeSpy) Snapshot(cb func([]byte, uint64, error)) {
 		h.nextID++
 		h.mu.Unlock()
 		stack := fmt.Sprintf("s%d", id)
+		switch h.r.Intn(12) { // frame separators in every position: they are part of the stack's identity
+		case 0:
+			stack = fmt.Sprintf("main;s%d;", id) // trailing separator
+		case 1:
+			stack = fmt.Sprintf("s%d;", id)
+		case 2:
+			stack = fmt.Sprintf("main;;s%d", id) // an empty frame
+		case 3:
+			stack = fmt.Sprintf(";s%d", id)
+		case 4:
+			if !h.bareSep { // the stack ";" alone, once per session
+				h.bareSep = true
+				stack = ";"
+			}
+		case 5:
+			stack = fmt.Sprintf("main;s%d", id) // the same stack as case 0 of another sample up to the separator
+		}
 		if s.cumul {
 			stack = fmt.Sprintf("c%d", h.r.Intn(4))
 			if i > 0 && h.r.Intn(2) == 0 {
@@ -210,8 +231,9 @@ func (u *recUpstream) Upload(j *upstream.UploadJob) {
 	g := gid()
 	h.mu.Lock()
 	jb.trie = j.Trie
+	jb.ptr = j
 	for _, o := range h.jobs {
-		if o.trie != nil && o.trie == j.Trie {
+		if (o.trie != nil && o.trie == j.Trie) || o.ptr == j {
 			jb.shared = true
 		}
 	}
@@ -356,8 +378,10 @@ func run(in Input) lib.Result {
 	h.mu.Unlock()
 	// the late read: what an uploader that serialises a queued job only now would send
 	for i := range jobs {
-		if jobs[i].trie != nil {
-			jobs[i].trie.Iterate(func(name []byte, val uint64) {
+		p := jobs[i].ptr
+		jobs[i].lateStart, jobs[i].lateEnd, jobs[i].lateName = p.StartTime, p.EndTime, p.Name
+		if p.Trie != nil {
+			p.Trie.Iterate(func(name []byte, val uint64) {
 				jobs[i].late = append(jobs[i].late, [2]string{string(name), strconv.FormatUint(val, 10)})
 			})
 		}
@@ -434,9 +458,10 @@ func run(in Input) lib.Result {
 		for k, d := range j.late {
 			late[k] = lib.Pair(lib.Bytes([]byte(d[0])), d[1])
 		}
-		jobTerms[i] = fmt.Sprintf("{| oj_name := %s; oj_start := %s; oj_end := %s; oj_spy := %s; oj_rate := %d; oj_units := %s; oj_agg := %s; oj_data := %s; oj_late := %s; oj_shared := %s; oj_by_stop := %s |}",
+		jobTerms[i] = fmt.Sprintf("{| oj_name := %s; oj_start := %s; oj_end := %s; oj_spy := %s; oj_rate := %d; oj_units := %s; oj_agg := %s; oj_data := %s; oj_late := %s; oj_late_name := %s; oj_late_start := %s; oj_late_end := %s; oj_shared := %s; oj_by_stop := %s |}",
 			lib.Bytes([]byte(j.name)), zns(j.start), zns(j.end), lib.Bytes([]byte(j.spy)), j.rate, lib.Bytes([]byte(j.units)),
-			lib.Bytes([]byte(j.agg)), lib.List(data), lib.List(late), lib.Bool(j.shared), lib.Bool(j.byStop))
+			lib.Bytes([]byte(j.agg)), lib.List(data), lib.List(late), lib.Bytes([]byte(j.lateName)), zns(j.lateStart), zns(j.lateEnd),
+			lib.Bool(j.shared), lib.Bool(j.byStop))
 		if seenStopJob {
 			afterStopJobs++
 		}
